@@ -32,6 +32,11 @@ CLAIMED = {
    "Workspaces of 2..4 files (thorough: ..5) under main.journal with 3 (thorough 4) content variants per file that collide by construction (same payee with identical and different posting templates, shared accounts / commodities / tags / tag values / dates, commodity directives with different formats, account declarations, include lines that make files and subtrees reachable or unreachable, cycles included); every sequence of update(file, variant) up to depth 6 (thorough 8) with state de-duplication. After every update: member files, accounts (All and ByPrefix), payees, commodities, tags, tag values, dates, five count maps, transaction index, declared accounts/commodities must equal a rebuild exactly; payee templates and commodity formats must equal it whenever the member files agree and otherwise be a value some member file defines.",
    "Rebuild = NewWorkspace + Initialize with a fresh loader on the same disk. Updates carrying editor text that differs from disk have no rebuild reference and are not covered. Histories are sharded by first update; states are de-duplicated per shard.",
    "DESIGN.md §3.4, §5 C12"),
+ "C01": ("model_checking",
+   "bounded-exhaustive enumeration of documents x content changes against a reference client buffer, plus explicit-state BFS over open/change/close/request histories on two URIs with a differential oracle against a fresh server",
+   "Mirror part: every document of <= 3 units (4 thorough) over {a, é, 😀, LF, CRLF} x every range-less change and every ranged change with start/end drawn from all positions (lines 0..lines+1, characters 0..maxLineLen+2, empty range at 0:0, ends past line/document end; positions inside a surrogate pair excluded) x 7 replacement texts, sent as JSON through the real decoder; two-change notifications on documents of <= 2 (3) units. Server text must equal a reference UTF-16 buffer with the LSP clamping rules. History part: BFS to depth 3 (4) over 34 operations (open/full change/ranged diff edit/close on two URIs and 4 journal texts incl. CRLF+non-BMP, and the cache-populating requests inlineCompletion, completion, semanticTokens, documentSymbol); after every step the texts must match and documentSymbol, foldingRange, formatting, completion, hover, inlineCompletion, semanticTokens and the last diagnostics must equal those of a fresh server that only opened the current text.",
+   "Reference buffer follows vscode-languageserver-textdocument (clamp before the line terminator). Lone CR line ends and texts outside the unit alphabet are not covered; state key = texts + dump of documents, resolved, payeeTemplatesCache, tokenCache, settings, taken before the oracle probes.",
+   "DESIGN.md §4.1, §5 C01"),
 }
 
 NOT_YET = "check not built yet in this session (work in progress; see DESIGN.md §5 for the plan)"
